@@ -85,7 +85,12 @@ func init() {
 			if b, ok := src.([]value); ok {
 				return f([]byte(bytesToString(b)))
 			}
-			return joinPieces([]piece{{s: name + "("}, toPiece(bytesText(src)), {s: ")"}})
+			txt := bytesText(src)
+			if cs, ok := txt.(string); ok {
+				// a tree whose text is entirely concrete: the real encoding
+				return f([]byte(cs))
+			}
+			return joinPieces([]piece{{s: name + "("}, toPiece(txt), {s: ")"}})
 		}
 	}
 	I["(*encoding/base64.Encoding).EncodeToString"] = func(fr *frame, a []value) value {
